@@ -7,7 +7,23 @@ REGIMES = {
     "K0": dict(scale=1 << 10, eps=0, prec=None),
     "K4": dict(scale=1 << 22, eps=4, prec=None),
     "K1": dict(scale=1, eps=1, prec=0),
+    # set_precision(0) with a 1/1024 s tick: segment bounds must be whole seconds (multiples of 1024 ticks), while
+    # sliding-window parameters - which are not segments and are never rounded - may be any tick
+    "P0": dict(scale=1 << 10, eps=1 << 10, prec=0),
 }
+
+
+# numeric type of the times handed to the implementation: 0 = the regime's native type (float; int in K1),
+# 1 = the other builtin type (float in K1; int for whole seconds elsewhere), 2 = numpy.float64. Set per case by the
+# worker as a function of the case, so a replay uses the same type.
+NUMMODE = 0
+
+
+def nummode_of(case):
+    import hashlib
+    import json
+    h = hashlib.sha256(json.dumps(case, sort_keys=True, default=str).encode()).digest()
+    return (0, 0, 1, 2)[h[0] % 4]
 
 
 class OffGrid(Exception):
@@ -33,9 +49,22 @@ class TB:
 
     def t(self, ticks):
         """ticks -> number given to the implementation"""
+        m = NUMMODE
         if self.scale == 1:
-            return int(ticks)
-        return ticks / self.scale  # exact: power-of-two scale, |ticks| < 2**53
+            v = int(ticks)
+            if m == 1:
+                return float(v)
+            if m == 2:
+                import numpy as np
+                return np.float64(v)
+            return v
+        v = ticks / self.scale  # exact: power-of-two scale, |ticks| < 2**53
+        if m == 2:
+            import numpy as np
+            return np.float64(v)
+        if m == 1 and v == int(v) and abs(v) < 2 ** 53:
+            return int(v)
+        return v
 
     def u(self, value, mult=1):
         """number returned by the implementation -> ticks (times mult), exactly"""
